@@ -516,10 +516,10 @@ type knownFinding struct {
 }
 
 type baseline struct {
-	Unproved     []string `json:"unproved"`
-	Floor        int      `json:"floor"`                   // minimal number of discharged obligations expected
-	SweepClaimed []string `json:"sweep_claimed,omitempty"` // C07 sweep: safety obligations discharged on the unchanged tree
-	SweepInv     map[string]map[int][]string `json:"sweep_inv,omitempty"` // C07 sweep: bounds invariants inferred per function and loop
+	Unproved     []string                    `json:"unproved"`
+	Floor        int                         `json:"floor"`                   // minimal number of discharged obligations expected
+	SweepClaimed []string                    `json:"sweep_claimed,omitempty"` // C07 sweep: safety obligations discharged on the unchanged tree
+	SweepInv     map[string]map[int][]string `json:"sweep_inv,omitempty"`     // C07 sweep: bounds invariants inferred per function and loop
 }
 
 var oblClasses = []string{"/cover/", "/pre/", "/post/", "/inv-entry/", "/inv-preserve/", "/modifies/", "/arith/", "/index/", "/slice/", "/nil/",
@@ -914,16 +914,16 @@ func cmdCheck(args []string) int {
 		"property_id": *prop, "tier": *tier, "seed": seed, "level": "proof",
 		"coverage": map[string]any{
 			"obligations": total, "discharged": discharged,
-			"checker_cmd":              fmt.Sprintf("./bin/govc check --property %s --tier %s", *prop, *tier),
-			"trusted_base":             tb,
-			"functions_under_contract": funcs,
-			"by_backend":               perSolver,
-			"solver_seconds":           solverSecs,
-			"unproved_not_claimed":     unproved,
-			"outside_subset":           outside,
-			"vacuity_covers":           covers,
-			"samples":                  samples,
-			"known_findings":           len(seenKnown),
+			"checker_cmd":                      fmt.Sprintf("./bin/govc check --property %s --tier %s", *prop, *tier),
+			"trusted_base":                     tb,
+			"functions_under_contract":         funcs,
+			"by_backend":                       perSolver,
+			"solver_seconds":                   solverSecs,
+			"unproved_not_claimed":             unproved,
+			"outside_subset":                   outside,
+			"vacuity_covers":                   covers,
+			"samples":                          samples,
+			"known_findings":                   len(seenKnown),
 			"sweep_new_discharged_not_claimed": sweepNew,
 		},
 		"assumptions": assumptions,
